@@ -198,9 +198,9 @@ PROPS.update({
                            "Ties: `Pflag.parse` = the real parser on every generated line (op `pflagparse`); `traverseSlot` = the slot the real traverse serves, observed through per-slot marker values, on every generated line incl. sub-command descent, parse errors, DisableFlagParsing, non-interspersed commands (op `parse`); LookupArg / Consumes model = internal/pflagfork (op `lookuparg`). "
                            "Decided on the real code, both directions: every offered candidate carries a marker of the slot that produced it; it is appended to the line and the line is executed by the program's own cobra/pflag on a fresh tree: it must land in that slot (command, positional index, index after the dash, flag); and a probe word typed at the cursor is run through the program the same way: the slot it lands in must be the slot whose registered completion is served (this direction needs no model)."),
             "level_note": PARSE_NOTE},
-    "C07": {"modules": ["Carapace.Props.C07", "Carapace.Props.C07Parser"], "ops": [("parse", {"quick": 6000, "thorough": 300000})],
+    "C07": {"modules": ["Carapace.Props.C07", "Carapace.Props.C07Parser", "Carapace.Props.C01Cobra"], "ops": [("cobrafind", {"quick": 3000, "thorough": 150000}), ("parse", {"quick": 6000, "thorough": 300000})],
             "rule": PARSE_RULE, "assumptions": PARSE_ASSUME, "claimed": True, "engine": "parse",
-            "level_text": ("`C07_offer_rule` (a flag is offered iff visible, not deprecated, not already given unless repeatable, and no member of its mutually-exclusive groups was given) with its corollaries `C07_hidden_never`, `C07_deprecated_never`, `C07_given_only_if_repeatable`, `C07_mutex`; `C07_chain_accepted` (inside a shorthand series whose letters so far take no argument, appending the shorthand of any existing flag gives a word the parser specification does not reject); the mutex scan counting the flag itself is a decided counterexample; at the level of the program's flag parser (`Spec/Pflag.lean`, tied to the real package by op `pflagparse`): `C07_long_noarg_accepted` and `C07_long_value_accepted` - appended to any accepted interspersed line without `--`, the long form of a known flag (with a value of its type if it needs one) is accepted and sets exactly that flag, everything else unchanged. The rule model is compared with the real offer of longhand names on generated trees (changed flags taken from the program's own parse). "
+            "level_text": ("`C07_subcommand_dispatches` (C01Cobra.lean, over the specification of cobra's `Find`, Spec/Cobra.lean, tied to the real package by op cobrafind): the name or alias of a child of the command a path of sub-command names leads to, typed there, is dispatched by cobra to that very child, the following words handed on unchanged. " + "`C07_offer_rule` (a flag is offered iff visible, not deprecated, not already given unless repeatable, and no member of its mutually-exclusive groups was given) with its corollaries `C07_hidden_never`, `C07_deprecated_never`, `C07_given_only_if_repeatable`, `C07_mutex`; `C07_chain_accepted` (inside a shorthand series whose letters so far take no argument, appending the shorthand of any existing flag gives a word the parser specification does not reject); the mutex scan counting the flag itself is a decided counterexample; at the level of the program's flag parser (`Spec/Pflag.lean`, tied to the real package by op `pflagparse`): `C07_long_noarg_accepted` and `C07_long_value_accepted` - appended to any accepted interspersed line without `--`, the long form of a known flag (with a value of its type if it needs one) is accepted and sets exactly that flag, everything else unchanged. The rule model is compared with the real offer of longhand names on generated trees (changed flags taken from the program's own parse). "
                            "Decided on the real code: every offered flag name, appended (with a value if needed), is accepted by cobra/pflag and sets that very flag; hidden / deprecated flags and sub-commands are never offered; every offered sub-command name dispatches to that very sub-command."),
             "level_note": PARSE_NOTE},
 })
